@@ -379,9 +379,9 @@ class ArgumentParser(argparse.ArgumentParser):
         return super().add_argument_group(
             title=title,
             description=description,
-            prefix_chars=prefix_chars or self.prefix_chars,
-            argument_default=argument_default or self.argument_default,
-            conflict_handler=conflict_handler or self.conflict_handler,
+            prefix_chars=prefix_chars if prefix_chars is not None else self.prefix_chars,
+            argument_default=argument_default if argument_default is not None else self.argument_default,
+            conflict_handler=conflict_handler if conflict_handler is not None else self.conflict_handler,
         )
 
     def print_help(self, file=None, args: Sequence[str] | None = None):
